@@ -158,8 +158,10 @@ type gate struct {
 func resolveGate(c *core.Ctx) *gate {
 	P := c.P
 	parse := P.Func(P.Root, "ParseClientMsg")
+	var best *gate
+	bestDepth := 99
 	for _, fn := range P.ModFuncs {
-		if len(callsTo(fn, parse)) == 0 || fn.Pkg != P.Root {
+		if fn.Pkg != P.Root || fn.Parent() != nil {
 			continue
 		}
 		g := &gate{fn: fn, recvIdx: -1, sendIdx: -1}
@@ -176,10 +178,23 @@ func resolveGate(c *core.Ctx) *gate {
 		if g.recvIdx < 0 || g.sendIdx < 0 {
 			continue
 		}
+		// the parse happens in fn or in a private helper fn hands the payload to; of several
+		// nested candidates (read loop → read function) the one closest to the parse
+		depth := -1
+		an.Region(fn, nil, func(o an.Occ) {
+			if call, ok := o.In.(*ssa.Call); ok && parse != nil && an.StaticCallee(&call.Call) == parse {
+				if depth < 0 || len(o.Chain) < depth {
+					depth = len(o.Chain)
+				}
+			}
+		})
+		if depth < 0 || depth >= bestDepth {
+			continue
+		}
 		g.forwards = sendsOnParam(P, fn, g.recvIdx, 0)
-		return g
+		best, bestDepth = g, depth
 	}
-	return nil
+	return best
 }
 
 func stripNot(v ssa.Value, pol bool) (ssa.Value, bool) {
@@ -222,32 +237,38 @@ func runGateChain(c *core.Ctx) {
 	type want struct {
 		name  string
 		props []string
-		match func(v ssa.Value, pol bool) bool
+		match func(gd an.Cond, v ssa.Value, pol bool) bool
 	}
-	callIs := func(v ssa.Value, callee, arg string) bool {
+	// (a test may sit in a helper whose verdict the read function acts on: its values are
+	// read through the condition's call chain)
+	callIs := func(gd an.Cond, v ssa.Value, callee, arg string) bool {
 		call, ok := v.(*ssa.Call)
-		return ok && an.CalleeName(&call.Call) == callee && len(call.Call.Args) >= 1 && an.PathOf(call.Call.Args[len(call.Call.Args)-1]) == arg
+		return ok && an.CalleeName(&call.Call) == callee && len(call.Call.Args) >= 1 && gd.Path(call.Call.Args[len(call.Call.Args)-1]) == arg
 	}
 	wants := []want{
-		{"frame-type==text", []string{"C12"}, func(v ssa.Value, pol bool) bool {
+		{"frame-type==text", []string{"C12"}, func(gd an.Cond, v ssa.Value, pol bool) bool {
 			b, ok := v.(*ssa.BinOp)
 			if !ok {
 				return false
 			}
 			k, isK := an.ConstInt(b.Y)
-			return an.PathOf(b.X) == readPath+"#0" && isK && k == 1 && ((b.Op == token.EQL) == pol) && (b.Op == token.EQL || b.Op == token.NEQ)
+			return gd.Path(b.X) == readPath+"#0" && isK && k == 1 && ((b.Op == token.EQL) == pol) && (b.Op == token.EQL || b.Op == token.NEQ)
 		}},
-		{"utf8.Valid", []string{"C12"}, func(v ssa.Value, pol bool) bool { return pol && callIs(v, "unicode/utf8.Valid", payload) }},
-		{"json.Valid", []string{"C12"}, func(v ssa.Value, pol bool) bool { return pol && callIs(v, "encoding/json.Valid", payload) }},
-		{"ParseClientMsg err==nil", []string{"C12", "C11"}, func(v ssa.Value, pol bool) bool {
+		{"utf8.Valid", []string{"C12"}, func(gd an.Cond, v ssa.Value, pol bool) bool {
+			return pol && callIs(gd, v, "unicode/utf8.Valid", payload)
+		}},
+		{"json.Valid", []string{"C12"}, func(gd an.Cond, v ssa.Value, pol bool) bool {
+			return pol && callIs(gd, v, "encoding/json.Valid", payload)
+		}},
+		{"ParseClientMsg err==nil", []string{"C12", "C11"}, func(gd an.Cond, v ssa.Value, pol bool) bool {
 			b, ok := v.(*ssa.BinOp)
-			return ok && an.PathOf(b.X) == parsed+"#1" && an.IsNilConst(b.Y) && ((b.Op == token.EQL) == pol)
+			return ok && gd.Path(b.X) == parsed+"#1" && an.IsNilConst(b.Y) && ((b.Op == token.EQL) == pol)
 		}},
-		{"ValidClientMsg", []string{"C12", "C11"}, func(v ssa.Value, pol bool) bool {
-			return pol && callIs(v, core.ModulePath+".ValidClientMsg", parsed+"#0")
+		{"ValidClientMsg", []string{"C12", "C11"}, func(gd an.Cond, v ssa.Value, pol bool) bool {
+			return pol && callIs(gd, v, core.ModulePath+".ValidClientMsg", parsed+"#0")
 		}},
 	}
-	reach, rok := an.ReachConds(fn, S.Block())
+	reach, rok := an.ReachCondsDeep(fn, S.Block())
 	if !rok || len(reach) == 0 {
 		c.Unknown([]string{"C12"}, fname(c, fn), "edges", P.Pos(S.Pos()), "paths to the forward could not be enumerated")
 		return
@@ -260,7 +281,7 @@ func runGateChain(c *core.Ctx) {
 			has := false
 			for _, gd := range conds {
 				v, pol := stripNot(gd.V, gd.True)
-				if w.match(v, pol) {
+				if w.match(gd, v, pol) {
 					has = true
 				}
 			}
@@ -275,76 +296,33 @@ func runGateChain(c *core.Ctx) {
 	// forwarded value = the parse result
 	var fwdArg string
 	if call, ok := S.(*ssa.Call); ok {
-		fwdArg = an.PathOf(call.Call.Args[len(call.Call.Args)-1])
+		arg := call.Call.Args[len(call.Call.Args)-1]
+		fwdArg = an.PathOf(arg)
+		// the message may come out of a decision helper as a field of its result: then every
+		// return of the helper that sets the field must set it to the parse result
+		if hc, field, isField := an.FieldOfHelperResult(arg); isField {
+			if vals, ok := an.ResultFieldPaths(hc, field); ok && len(vals) > 0 {
+				fwdArg = vals[0]
+				for _, v := range vals {
+					if v != vals[0] {
+						fwdArg = strings.Join(vals, " | ")
+					}
+				}
+			}
+		}
 	}
 	c.Check(fwdArg == parsed+"#0", []string{"C12"}, fname(c, fn), "forwarded-value", P.Pos(S.Pos()), "the forwarded message is the parse result of the validated payload", "the forwarded value is "+fwdArg+", not the parse result of the validated payload")
-	// EVENT sub-path: Verify err == nil and valid == true
-	paths, ok := an.PathsTo(fn, S.Block(), 4096)
-	c.CountPaths(len(paths))
-	if !ok {
-		c.Unknown([]string{"C12", "C01"}, fname(c, fn), "edge[Verify]", P.Pos(S.Pos()), "too many paths")
-		return
-	}
+	// EVENT sub-path: Verify err == nil and valid == true — on every way to the forward that
+	// established the message to be an EVENT (branch conditions of fn and of the helpers whose
+	// verdicts it acts on, each read in fn's terms)
+	wantVerify := "call:(*" + core.ModulePath + ".Event).Verify(" + parsed + "#0.Event)"
 	verifyPath := ""
-	an.Instrs(fn, func(in ssa.Instruction) {
-		if call, ok := in.(*ssa.Call); ok && strings.HasSuffix(an.CalleeName(&call.Call), "mocrelay.Event).Verify") {
-			verifyPath = an.PathOf(call)
-		}
-	})
-	// the signature check may live in a private helper that answers "forward this event?":
-	// then every true answer must follow Verify(msg.Event) == (true, nil), and the forward
-	// must be taken on the helper's true answer
-	var verifyHelper *ssa.Call
-	if verifyPath == "" {
-		for _, ci := range calls(fn) {
-			hc, isCall := ci.(*ssa.Call)
-			if !isCall {
-				continue
-			}
-			h := an.StaticCallee(&hc.Call)
-			if !an.PrivateHelper(h) || h.Signature.Results().Len() != 1 || len(h.Params) != len(hc.Call.Args) {
-				continue
-			}
-			var vcall *ssa.Call
-			for _, hci := range calls(h) {
-				if vc, ok := hci.(*ssa.Call); ok && strings.HasSuffix(an.CalleeName(&vc.Call), "mocrelay.Event).Verify") {
-					vcall = vc
-				}
-			}
-			if vcall == nil {
-				continue
-			}
-			tps, okp := an.ResultPaths(h, 0, true)
-			good := okp && len(tps) > 0
-			for _, tp := range tps {
-				e := tp.Has(func(g an.Cond) bool {
-					b, isBin := g.V.(*ssa.BinOp)
-					if !isBin || !an.IsNilConst(b.Y) {
-						return false
-					}
-					ex, isEx := b.X.(*ssa.Extract)
-					return isEx && ex.Tuple == ssa.Value(vcall) && ex.Index == 1 && ((b.Op == token.EQL) == g.True)
-				})
-				v := tp.Has(func(g an.Cond) bool {
-					ex, isEx := g.V.(*ssa.Extract)
-					return isEx && ex.Tuple == ssa.Value(vcall) && ex.Index == 0 && g.True
-				})
-				if !e || !v {
-					good = false
-				}
-			}
-			if good {
-				verifyHelper = hc
-				verifyPath = an.PathOfIn(vcall, &hc.Call)
-			}
-		}
-	}
 	evPaths, okErr, okValid := 0, true, true
-	for _, p := range paths {
+	for _, conds := range reach {
 		isEvent := false
-		for _, cd := range p.Conds() {
-			if ex, ok := cd.V.(*ssa.Extract); ok && cd.True {
-				if ta, ok := ex.Tuple.(*ssa.TypeAssert); ok && typeNameOf(ta.AssertedType) == "ClientEventMsg" && an.PathOf(ta.X) == parsed+"#0" {
+		for _, cd := range conds {
+			if ex, ok := cd.V.(*ssa.Extract); ok && cd.True && ex.Index == 1 {
+				if ta, ok := ex.Tuple.(*ssa.TypeAssert); ok && typeNameOf(ta.AssertedType) == "ClientEventMsg" && cd.Path(ta.X) == parsed+"#0" {
 					isEvent = true
 				}
 			}
@@ -354,26 +332,26 @@ func runGateChain(c *core.Ctx) {
 		}
 		evPaths++
 		e, v := false, false
-		for _, cd := range p.Conds() {
+		for _, cd := range conds {
 			val, pol := stripNot(cd.V, cd.True)
-			if b, ok := val.(*ssa.BinOp); ok && verifyPath != "" && an.PathOf(b.X) == verifyPath+"#1" && an.IsNilConst(b.Y) && ((b.Op == token.EQL) == pol) {
-				e = true
+			if b, ok := val.(*ssa.BinOp); ok && an.IsNilConst(b.Y) && ((b.Op == token.EQL) == pol) {
+				if vp := cd.Path(b.X); strings.HasSuffix(vp, "#1") && strings.HasPrefix(vp, "call:(*"+core.ModulePath+".Event).Verify(") {
+					e = true
+					verifyPath = strings.TrimSuffix(vp, "#1")
+				}
 			}
-			if verifyPath != "" && an.PathOf(val) == verifyPath+"#0" && pol {
+			if vp := cd.Path(val); pol && strings.HasSuffix(vp, "#0") && strings.HasPrefix(vp, "call:(*"+core.ModulePath+".Event).Verify(") {
 				v = true
-			}
-			if verifyHelper != nil && val == ssa.Value(verifyHelper) && pol {
-				e, v = true, true
+				verifyPath = strings.TrimSuffix(vp, "#0")
 			}
 		}
 		okErr = okErr && e
 		okValid = okValid && v
 	}
-	wantVerify := "call:(*" + core.ModulePath + ".Event).Verify(" + parsed + "#0.Event)"
 	c.Check(evPaths > 0 && okErr && okValid && verifyPath == wantVerify, []string{"C12", "C01"}, fname(c, fn), "edge[Verify]", P.Pos(S.Pos()),
 		fmt.Sprintf("on all %d EVENT paths to the forward: Verify(msg.Event) err == nil and result true", evPaths),
 		fmt.Sprintf("an EVENT can be forwarded without msg.Event.Verify() having returned (true, nil) (event paths: %d, err edge: %v, true edge: %v, verified value: %s)", evPaths, okErr, okValid, verifyPath))
-	c.Check(len(paths) > evPaths, []string{"C12"}, fname(c, fn), "non-event-pass", P.Pos(S.Pos()), "messages other than EVENT are forwarded without signature check", "no forwarding path for non-EVENT messages")
+	c.Check(len(reach) > evPaths, []string{"C12"}, fname(c, fn), "non-event-pass", P.Pos(S.Pos()), "messages other than EVENT are forwarded without signature check", "no forwarding path for non-EVENT messages")
 }
 
 func runGateOneNotice(c *core.Ctx) {
@@ -450,10 +428,27 @@ func runGateOneNotice(c *core.Ctx) {
 						// what is sent is a rejection built by one of the protocol's constructors
 						// (the message may be any of the send helper's arguments)
 						isRej := false
+						isCtor := func(arg string) bool {
+							return strings.Contains(arg, "NewServerNoticeMsg") || strings.Contains(arg, "NewServerOKMsg") || strings.Contains(arg, "NewServerClosedMsg")
+						}
 						for _, a := range call.Call.Args {
-							arg := an.PathOf(a)
-							if strings.Contains(arg, "NewServerNoticeMsg") || strings.Contains(arg, "NewServerOKMsg") || strings.Contains(arg, "NewServerClosedMsg") {
+							if isCtor(an.PathOf(a)) {
 								isRej = true
+							}
+							// … or the field of a decision helper's result that every return of the
+							// helper fills with such a message (or leaves empty)
+							if hc, field, isField := an.FieldOfHelperResult(a); isField {
+								if vals, ok := an.ResultFieldPaths(hc, field); ok && len(vals) > 0 {
+									all := true
+									for _, v := range vals {
+										if !isCtor(v) {
+											all = false
+										}
+									}
+									if all {
+										isRej = true
+									}
+								}
 							}
 						}
 						if !isRej {
@@ -466,7 +461,17 @@ func runGateOneNotice(c *core.Ctx) {
 			case f == 1 && n == 0 && errNil:
 				nFwd++
 			case f == 0 && n == 1 && errNil && okCtor:
-				nRej++
+				// a rejection decided by a helper stands for as many cases as the helper has
+				// ways of deciding it
+				var cs []an.Cond
+				for _, cd := range p.Conds() {
+					cs = append(cs, an.NormCond(cd))
+				}
+				if k := len(an.SpliceVerdicts(cs)); k > 1 {
+					nRej += k
+				} else {
+					nRej++
+				}
 			case f == 0 && n == 0 && !errNil:
 				nErr++
 			default:
@@ -636,6 +641,22 @@ func runWritePath(c *core.Ctx) {
 			detail = fmt.Sprintf("conn.Write is called with frame type %v and payload %s", w.Call.Args[2], o.Path(w.Call.Args[3]))
 		}
 	}
+	// … or in a closure of the loop that is handed to a helper (withSendTimeout(ctx, func(ctx) error
+	// { return conn.Write(ctx, MessageText, jsonMsg) })): captured variables read as what they hold
+	for _, cl := range an.WithAnon(loop) {
+		if cl == loop {
+			continue
+		}
+		for _, w := range callsNamed(cl, "(*github.com/coder/websocket.Conn).Write") {
+			nw++
+			wpos = w.Pos()
+			k, isK := an.ConstInt(w.Call.Args[2])
+			if !(isK && k == 1 && an.PathOf(w.Call.Args[3]) == marshalPath+"#0") {
+				okWrite = false
+				detail = fmt.Sprintf("conn.Write is called with frame type %v and payload %s", w.Call.Args[2], an.PathOf(w.Call.Args[3]))
+			}
+		}
+	}
 	if nw == 0 {
 		okWrite = false
 	}
@@ -649,7 +670,11 @@ func runWritePath(c *core.Ctx) {
 			continue
 		}
 		n += len(ws)
-		if fn == loop {
+		root := fn
+		for root.Parent() != nil {
+			root = root.Parent()
+		}
+		if root == loop {
 			continue
 		}
 		// every chain of module callers ends in the write loop
